@@ -6,6 +6,7 @@ import (
 	"encoding/base64"
 	"encoding/json"
 	"fmt"
+	"net/http"
 	"os"
 	"os/exec"
 	"path/filepath"
@@ -221,19 +222,20 @@ func C08(c *Ctx, r *report.Run) error {
 
 // tsData is everything the staged pipeline produced, per case id.
 type tsData struct {
-	cases     map[string]*rt.TSCase
-	order     []string
-	tsRec     map[string]map[string]any // node client_record
-	served    map[string]map[string]any // Go server replay
-	tsFin     map[string]map[string]any // node client_finish
-	goRec     map[string]map[string]any
-	tsHandled map[string]map[string]any
-	goFin     map[string]map[string]any
-	tsts      map[string]map[string]any
-	routes    map[string]map[string]any // unit|svc
-	helpers   map[string]map[string]any
-	goHelpers []map[string]any
-	servedGo  map[string]map[string]any // Go client's request replayed on the Go server
+	cases        map[string]*rt.TSCase
+	order        []string
+	tsRec        map[string]map[string]any // node client_record
+	served       map[string]map[string]any // Go server replay
+	tsFin        map[string]map[string]any // node client_finish
+	goRec        map[string]map[string]any
+	tsHandled    map[string]map[string]any
+	goFin        map[string]map[string]any
+	tsts         map[string]map[string]any
+	routes       map[string]map[string]any // unit|svc
+	helpers      map[string]map[string]any
+	goHelpers    []map[string]any
+	goPrecedence []map[string]any
+	servedGo     map[string]map[string]any // Go client's request replayed on the Go server
 }
 
 func decodeRec(raw json.RawMessage) map[string]any {
@@ -466,6 +468,8 @@ func c08Pipeline(c *Ctx, w *ws.Workspace, units []rt.JobUnit, probesOnly bool) (
 	for _, rr := range raw {
 		if m := decodeRec(rr); m["k"] == "gohelper" {
 			d.goHelpers = append(d.goHelpers, m)
+		} else if m["k"] == "goprecedence" {
+			d.goPrecedence = append(d.goPrecedence, m)
 		}
 	}
 	return d, nil
@@ -723,6 +727,25 @@ func c08Judge(r *report.Run, w *ws.Workspace, d *tsData) {
 // c08JudgeGoHelpers: every typed header helper of the Go client sets a header that the service declares.
 func c08JudgeGoHelpers(r *report.Run, w *ws.Workspace, d *tsData) {
 	setsAnywhere := map[string]map[string]bool{}
+	// client default vs per-call header options of the Go client: the per-call value wins for its own call only
+	for _, h := range d.goPrecedence {
+		cell := fmt.Sprintf("%s,service=%s,rpc=%s,hdrshape=%s,client=go#%s", str(h, "cell"), str(h, "svc"), str(h, "rpc"), headerShape(str(h, "header")), str(h, "mode"))
+		var got []string
+		if l, ok := h["got"].([]any); ok {
+			for _, x := range l {
+				got = append(got, fmt.Sprint(x))
+			}
+		}
+		switch {
+		case str(h, "panic") != "<nil>" && str(h, "panic") != "":
+			r.Violate(cell, "client_panic", str(h, "panic"), h)
+		case len(got) != 1 || got[0] != str(h, "want"):
+			r.Violate(cell, "header_option_precedence", fmt.Sprintf("header %s, options %s: the request carries %v, want [%s] (dv = client default, cv = per-call value)", str(h, "header"), str(h, "mode"), got, str(h, "want")), h)
+			r.Case(cell, "header_option_precedence", true)
+		default:
+			r.Case(cell, "header_option_applied", true)
+		}
+	}
 	for _, h := range d.goHelpers {
 		k := str(h, "unit") + "|" + str(h, "svc") + "|" + str(h, "helper") + "/" + str(h, "level")
 		under, _ := h["under"].([]any)
@@ -793,4 +816,18 @@ func b64text(s string) string {
 func sameRPCName(ts, rpc string) bool {
 	norm := func(s string) string { return strings.ToLower(strings.ReplaceAll(s, "_", "")) }
 	return norm(ts) == norm(rpc)
+}
+
+// headerShape classes a header name by spelling: canonical MIME form, acronym (upper-case run), lower-case, other.
+func headerShape(n string) string {
+	switch {
+	case n == http.CanonicalHeaderKey(n):
+		return "canonical"
+	case n == strings.ToLower(n):
+		return "lower"
+	case strings.ToUpper(n) == n:
+		return "upper"
+	default:
+		return "acronym"
+	}
 }
